@@ -199,7 +199,8 @@ static void op_new(struct W* w, const char* op) {
     case 'u': {
       var t = new(Tuple);
       int64_t n = imod(A(1), 8);
-      for (int64_t i = 0; i < n; i++) push(t, mkval(tcode(A(2) + i), A(2) + i));   /* distinct fresh objects */
+      for (int64_t i = 0; i < n; i++)      /* distinct fresh objects; one type throughout when A(3) is odd */
+        push(t, mkval(tcode(imod(A(3), 2) ? A(2) : A(2) + i), A(2) + i * (1 + imod(A(3), 5))));
       *r = t; break;
     }
     case 'R': { var x = REG(1); if (x and type_of(x) isnt Ref) *r = new(Ref, x); else { P("-"); return; } break; }
@@ -420,7 +421,7 @@ static void op_exec(struct W* w, const char* op) {
   }
   if (strcmp(op, "ln") == 0) { if (implements(x, Len) and T isnt Ref) P("%zu", len(x)); else P("-"); return; }
   if (strcmp(op, "ha") == 0) {
-    bool ok = T is Int or T is Float or T is String or T is Pt
+    bool ok = T is Int or T is Float or T is String or T is Pt or T is Tuple
       or ((is_seq(x)) and is_valtype(iter_type(x)))
       or (is_map(x) and is_valtype(val_type(x)));
     if (ok) P("%" PRIu64, hash(x)); else P("-");
@@ -441,7 +442,8 @@ static void op_exec(struct W* w, const char* op) {
   }
 
   var y = w->na > 1 ? REG(1) : NULL;
-  if (strcmp(op, "as") == 0 or strcmp(op, "cm") == 0 or strcmp(op, "sw") == 0 or strcmp(op, "cc") == 0) {
+  if ((strcmp(op, "as") == 0 or strcmp(op, "cm") == 0 or strcmp(op, "sw") == 0 or strcmp(op, "cc") == 0)
+      and not (T is Tuple and strcmp(op, "cc") == 0)) {
     if (y is NULL or type_of(y) isnt T) { P("-"); return; }
     bool same_elems = is_valtype(T)
       or (is_seq(x) and iter_type(x) is iter_type(y))
@@ -611,6 +613,20 @@ static void op_exec(struct W* w, const char* op) {
       var v = mkval(tcode(A(1)), A(1));
       foreach (i in x) { if (type_of(i) isnt type_of(v)) { P("-"); return; } }
       P("%d", (int)mem(x, v)); return;
+    }
+    if (strcmp(op, "so") == 0 or strcmp(op, "rm") == 0) {     /* only tuples whose elements all have one type */
+      if (n == 0) { P("-"); return; }
+      var E0 = type_of(get(x, $I(0)));
+      foreach (i in x) { if (type_of(i) isnt E0) { P("-"); return; } }
+      if (op[0] == 's') { if (imod(A(1), 2)) sort(x); else sort_by(x, by_desc); P("ok"); }
+      else { var v = get(x, $I(imod(A(1), n))); rem(x, v); P("ok"); }
+      return;
+    }
+    if (strcmp(op, "cc") == 0) {      /* concat with another tuple that shares no element (no repeated pointer: F3) */
+      var y2 = w->na > 1 ? REG(1) : NULL;
+      if (y2 is NULL or type_of(y2) isnt Tuple or y2 is x) { P("-"); return; }
+      foreach (i in y2) { foreach (j in x) { if (i is j) { P("-"); return; } } }
+      concat(x, y2); P("ok"); return;
     }
     P("-"); return;
   }
